@@ -693,7 +693,11 @@ class Interp:
         try:
             return ast.literal_eval(node)
         except Exception:
-            raise LexUnknown(f"module-level value {module.name}.{name}")
+            pass
+        if isinstance(node, ast.Call) and ast.unparse(node.func) == "re.compile" and node.args and all(
+                isinstance(a, ast.Constant) for a in node.args) and not node.keywords:
+            return ("regex", re.compile(*[a.value for a in node.args]))
+        raise LexUnknown(f"module-level value {module.name}.{name}")
 
     def attribute(self, e, env):
         o = self.ev(e.value, env)
@@ -936,6 +940,15 @@ class Interp:
             return lift(repr, args[0])
         if name == "print":
             return None
+        if name == "next":
+            seq = self.iterate(args[0]) if not isinstance(args[0], list) else args[0]
+            if seq:
+                return seq[0]
+            if len(args) > 1:
+                return args[1]
+            raise PyRaise(StopIteration())
+        if name == "iter":
+            return self.iterate(args[0])
         if name == "type":
             return ("type", type(args[0]))
         if name in ("getattr", "hasattr"):
@@ -958,6 +971,21 @@ class Interp:
         raise LexUnknown(f"builtin {name}")
 
     def method(self, o, m, args, kwargs):
+        if isinstance(o, tuple) and len(o) == 2 and o[0] == "regex":
+            if m in ("match", "search", "fullmatch", "sub", "split", "findall"):
+                fn = getattr(o[1], m)
+                try:
+                    return lift(lambda *a: fn(*a, **kwargs), *args)
+                except (TypeError, re.error) as ex:
+                    raise PyRaise(TypeError(str(ex)))
+            raise LexUnknown(f"regex method {m}")
+        if isinstance(o, W) and all(isinstance(x, re.Match) for x in o.ex):
+            if m in ("group", "groups", "start", "end", "span"):
+                return lift(lambda mm, *a: getattr(mm, m)(*a), o, *args)
+        if isinstance(o, re.Match):
+            if m in ("group", "groups", "start", "end", "span"):
+                return getattr(o, m)(*args)
+            raise LexUnknown(f"match method {m}")
         if isinstance(o, (str, W)):
             if m == "join":
                 seq = self.iterate(args[0])
